@@ -250,7 +250,7 @@ type bipCase struct {
 }
 
 var bipPerturbs = []string{"none", "none", "flip-sig", "flip-msg", "flip-key", "r=p", "r=p-1", "r>=p-rand", "s=n", "s=n-s", "s=0", "s+n-overflow",
-	"sig-63", "sig-65", "sig-0", "key-31-forgery", "key-33-forgery", "key-33-zero", "key-0", "odd-R", "inf-R", "key-not-on-curve", "key>=p", "msg-extend", "msg-truncate"}
+	"sig-63", "sig-65", "sig-0", "key-31-forgery", "key-33-forgery", "key-33-zero", "key-0", "odd-R", "inf-R", "inf-R,r=0", "key-not-on-curve", "key>=p", "msg-extend", "msg-truncate"}
 
 type oneShot struct{ b []byte }
 
@@ -297,6 +297,7 @@ func bipRun(c bipCase) *pbt.Fail {
 		dEven.Sub(ref.N, d)
 	}
 	Ppt, _ := ref.LiftX(new(big.Int).SetBytes(wantPk))
+	zeroR := false
 	forge := func(key []byte, k *big.Int, negateK bool, infinite bool) []byte {
 		// produce (R.x, s) such that s*G - e*P = R for the challenge computed over `key` as given
 		R := ref.BaseMul(k)
@@ -305,6 +306,10 @@ func bipRun(c bipCase) *pbt.Fail {
 			kk.Sub(ref.N, k)
 		}
 		rx := R.XBytes()
+		if zeroR {
+			// with infinite: s*G - e*P is the point at infinity and r is the all-zero string some encoders give it
+			rx = make([]byte, 32)
+		}
 		e := new(big.Int).SetBytes(ref.TaggedHash("BIP0340/challenge", rx, key, vmsg))
 		e.Mod(e, ref.N)
 		s := new(big.Int).Mul(e, dEven)
@@ -369,6 +374,9 @@ func bipRun(c bipCase) *pbt.Fail {
 	case "odd-R":
 		vsig = forge(vpk, k, false, false) // valid iff k*G happens to have even Y
 	case "inf-R":
+		vsig = forge(vpk, k, false, true)
+	case "inf-R,r=0":
+		zeroR = true
 		vsig = forge(vpk, k, false, true)
 	case "key-not-on-curve":
 		x := new(big.Int).SetBytes(vpk)
